@@ -5,6 +5,7 @@ unless one with the same key (hash of everything cargo reads for the lib target 
 driver hash + feature configuration) is already cached.  Nothing in /repo is run.
 """
 import fcntl
+import re
 import hashlib
 import json
 import os
@@ -140,8 +141,13 @@ def load(config="default"):
         return _cache[config]
     path, fresh = extract(config)
     with open(path) as f:
-        d = json.loads(norm_paths(f.read()))
+        text = norm_paths(f.read())
+    d = json.loads(text)
+    ren = fn_renames(d)
+    if ren:
+        d = json.loads(apply_fn_renames(text, ren))
     F = Facts(d, config, path, fresh)
+    F.fn_renames = ren
     _cache[config] = F
     return F
 
@@ -180,8 +186,99 @@ def canon_path(p):
     return "".join(out)
 
 
+def _adt_of_type(t):
+    """`&'a mut r1cs::verifier::Verifier<G, T>` -> `r1cs::verifier::Verifier`"""
+    t = re.sub(r"^(&\s*('\w+\s+)?(mut\s+)?)+", "", (t or "").strip())
+    return t.split("<", 1)[0].strip()
+
+
+def _norm_ty(t):
+    return re.sub(r"(?<![\w:])([A-Z]\w*)(?![\w:])", "$T", t)
+
+
+def fn_sig(fn):
+    return {"params": [_norm_ty(p["ty"]) for p in fn["params"]], "ret": _norm_ty(fn.get("ret_ty") or "")}
+
+
+def fn_renames(d):
+    """{actual def path: reviewed def path} for inherent / free functions that were only renamed: the reviewed name
+    (spec/fn_sigs.json) is gone, and exactly one function of the same container with the same signature has a name the
+    reviewed tree does not know."""
+    spec_path = os.path.join(VERIF, "spec", "fn_sigs.json")
+    if not os.path.exists(spec_path):
+        return {}
+    with open(spec_path) as f:
+        spec = json.load(f)
+    fns = d["fns"]
+    have = {canon_path(p): p for p in fns}
+    spec_canon = {canon_path(p): (p, s) for p, s in spec.items()}
+    out = {}
+    for c, (old_path, sig) in spec_canon.items():
+        if c in have:
+            continue
+        prefix = c.rsplit("::", 1)[0] + "::"
+        cands = [p for cp, p in have.items() if cp.startswith(prefix) and "::" not in cp[len(prefix):] and cp not in spec_canon and not fns[p].get("expn") and fn_sig(fns[p]) == sig]
+        if len(cands) == 1:
+            # keep the actual generic-argument spelling of the container, replace the last segment only
+            out[cands[0]] = cands[0].rsplit("::", 1)[0] + "::" + old_path.rsplit("::", 1)[1]
+    return out
+
+
+def apply_fn_renames(text, ren):
+    for new, old in ren.items():
+        text = re.sub(re.escape(json.dumps(new)[1:-1]) + r'(?=["\\]|::\{)', lambda m: json.dumps(old)[1:-1], text)
+    return text
+
+
+def canon_fields(d):
+    """Private fields are addressed by the rules under their reviewed names (spec/state_fields.json).  A field that was
+    renamed keeps its type and its place among the renamed ones: map it back (by name where unchanged, else by
+    declaration order + type), in the item table and in every HIR body.  Anything else (count or type changed) is left
+    alone and surfaces as anchor-missing / a rule failure."""
+    spec_path = os.path.join(VERIF, "spec", "state_fields.json")
+    if not os.path.exists(spec_path):
+        return {}
+    with open(spec_path) as f:
+        spec = json.load(f)
+    renames = {}
+    for a in d["items"]["adts"]:
+        want = spec.get(a["path"])
+        if not want or a.get("kind") != "struct":
+            continue
+        have = a["variants"][0]["fields"]
+        wn = [n for n, _ in want]
+        hn = [f_["name"] for f_ in have]
+        if set(wn) == set(hn) or len(wn) != len(hn):
+            continue
+        rest_w = [(n, t) for n, t in want if n not in hn]
+        rest_h = [f_ for f_ in have if f_["name"] not in wn]
+        if len(rest_w) != len(rest_h) or any(_norm_ty(f_["ty"]) != t for f_, (_, t) in zip(rest_h, rest_w)):
+            continue
+        m = {f_["name"]: n for f_, (n, _) in zip(rest_h, rest_w)}
+        renames[a["path"]] = m
+        for f_ in have:
+            f_["name"] = m.get(f_["name"], f_["name"])
+    if not renames:
+        return {}
+    for fn in d["fns"].values():
+        for n in walk(fn["body"]):
+            k = n["k"]
+            if k == "Field":
+                m = renames.get(_adt_of_type(n.get("base_ty")))
+                if m and n["name"] in m:
+                    n["name"] = m[n["name"]]
+            elif k in ("Struct", "StructPat"):
+                m = renames.get(canon_path((n.get("res") or {}).get("path", "")))
+                if m:
+                    for fl in n.get("fields", []):
+                        if fl.get("name") in m:
+                            fl["name"] = m[fl["name"]]
+    return renames
+
+
 class Facts:
     def __init__(self, d, config, path, fresh):
+        self.field_renames = canon_fields(d)
         self.d = d
         self.config = config
         self.path = path
@@ -249,6 +346,21 @@ def children(node):
     elif isinstance(node, list):
         for x in node:
             yield from children(x)
+
+
+def own_jumps(node):
+    """`break` / `continue` nodes that belong to the loop whose body `node` is (nested loops and closures keep their own)"""
+    out = []
+    stack = [node]
+    while stack:
+        n = stack.pop()
+        if isinstance(n, dict) and n.get("k") in ("Break", "Continue"):
+            out.append(n)
+        for c in children(n):
+            if c.get("k") in ("Loop", "Closure"):
+                continue
+            stack.append(c)
+    return out
 
 
 def walk(node):
